@@ -212,6 +212,10 @@ def rule_repeat(F, R):
         "disj[1,unbounded]": (disj([c10.inv(1), c10.unbounded()]), None),
         "disj[2,2]": (disj([c10.inv(2), c10.inv(2)]), True),
         "disj[1,3]": (disj([c10.inv(1), c10.inv(3)]), None),
+        # sums of a range that begins at two or more and has an upper bound have gaps (3..4 never reaches 5)
+        "both3+1": (Adt(c10.COMP, "Conjunctive", {"0": sep(c10.bounded(Adt(c10.BVR, "Both", {"lower": 3, "extent": 1})))}), True),
+        "both1+1": (Adt(c10.COMP, "Conjunctive", {"0": sep(c10.bounded(Adt(c10.BVR, "Both", {"lower": 1, "extent": 1})))}), None),
+        "disj[1,both3+1]": (disj([c10.inv(1), c10.bounded(Adt(c10.BVR, "Both", {"lower": 3, "extent": 1}))]), True),
     }
     stubs = {"token::variance::finalize": lambda I, a, fn, e: Sym("finalized")}
     n = 0
@@ -229,7 +233,7 @@ def rule_repeat(F, R):
                 fail_msg="finalize(Repetition, %s) %s (result %r); a term that adds two or more components per iteration must not be "
                          "multiplied by the repetition's range: an open range would make it unbounded and the verdict `always`" % (
                              name, "multiplies the term" if finalized else "is unanalysable", res))
-    R.floor("C09.repeat", "finalize cells", n, 9)
+    R.floor("C09.repeat", "finalize cells", n, 12)
 
 
 def rule_fold(F, R):
